@@ -98,14 +98,23 @@ acl_ip_data::lastAddress() const
     return ip;
 }
 
+/// Numeric address order, as used by aclIpAddrNetworkCompare() lookups. Unlike
+/// Ip::Address::operator<() and friends, does not treat 0.0.0.0 as smaller than
+/// and 255.255.255.255 as greater than all other (including IPv6) addresses.
+static bool
+NumericallyLess(const Ip::Address &a, const Ip::Address &b)
+{
+    return a.matchIPAddr(b) < 0;
+}
+
 template <>
 int
 Acl::SplayInserter<acl_ip_data*>::Compare(const Value &a, const Value &b)
 {
-    if (a->lastAddress() < b->firstAddress())
+    if (NumericallyLess(a->lastAddress(), b->firstAddress()))
         return -1; // the entire range a is to the left of range b
 
-    if (a->firstAddress() > b->lastAddress())
+    if (NumericallyLess(b->lastAddress(), a->firstAddress()))
         return +1; // the entire range a is to the right of range b
 
     return 0; // equal or partially overlapping ranges
@@ -115,15 +124,15 @@ template <>
 bool
 Acl::SplayInserter<acl_ip_data*>::IsSubset(const Value &a, const Value &b)
 {
-    return b->firstAddress() <= a->firstAddress() && a->lastAddress() <= b->lastAddress();
+    return !NumericallyLess(a->firstAddress(), b->firstAddress()) && !NumericallyLess(b->lastAddress(), a->lastAddress());
 }
 
 template <>
 Acl::SplayInserter<acl_ip_data*>::Value
 Acl::SplayInserter<acl_ip_data*>::MakeCombinedValue(const Value &a, const Value &b)
 {
-    const auto minLeft = std::min(a->firstAddress(), b->firstAddress());
-    const auto maxRight = std::max(a->lastAddress(), b->lastAddress());
+    const auto minLeft = std::min(a->firstAddress(), b->firstAddress(), NumericallyLess);
+    const auto maxRight = std::max(a->lastAddress(), b->lastAddress(), NumericallyLess);
     return new acl_ip_data(minLeft, maxRight, Ip::Address::NoAddr(), nullptr);
 }
 
@@ -160,7 +169,7 @@ aclIpAddrNetworkCompare(acl_ip_data * const &p, acl_ip_data * const &q)
 
     } else {                   /* range address check */
 
-        if ( (A >= q->addr1) && (A <= q->addr2) )
+        if (A.matchIPAddr(q->addr1) >= 0 && A.matchIPAddr(q->addr2) <= 0)
             return 0; /* valid. inside range. */
         else
             return A.matchIPAddr( q->addr1 ); /* outside of range, 'less than' */
